@@ -1156,10 +1156,12 @@ def extract(repo=None):
     # derive_more::with_trait::T), it must do so whenever feature(D) is on - this is what the interpolated
     # template paths `derive_more::with_trait::#trait_ident` (utils.rs State) rely on
     trait_exports = []
+    trait_guards = []
     for (dname, feat, line) in derives:
         ch = r_fac.chain(["with_trait"], dname, "t")
         if ch:
             trait_exports.append(dname)
+            trait_guards.append({"trait": dname, "feature": feat, "guard": f_any([x[0] for x in ch])})
             pairs.append({"use": var(feat), "def": f_any([x[0] for x in ch]),
                           "what": "trait derive_more::with_trait::" + dname,
                           "file": "impl/src/lib.rs", "line": line, "def_where": "; ".join(x[1] for x in ch)[:200],
@@ -1222,6 +1224,41 @@ def extract(repo=None):
     helpers = [{"item": k, "def": v["def"], "uses": f_any(v["uses"])} for k, v in sorted(helper_uses.items())
                if not k.startswith("derive_more::with_trait::")]
 
+    # cfg-alternative definitions: the same name defined more than once in one module (two `mod x`, two items, two
+    # explicit `use .. as x` of different targets): their guards must be pairwise exclusive (else E0428 / E0252)
+    alternatives = []
+    for cr in (impl, facade):
+        for mp, m in sorted(cr.modules.items()):
+            for name, ds in sorted(m.defs.items()):
+                if name == "_":
+                    continue
+                groups = {}
+                for d in ds:
+                    if d.kind == "use":
+                        groups.setdefault("use", {}).setdefault(tuple(d.target or ()), []).append(d)
+                    else:
+                        groups.setdefault("mod" if d.kind == "mod" else "item:" + d.ns, {}).setdefault((d.file, d.line), []).append(d)
+                for gk, alts in groups.items():
+                    if len(alts) < 2:
+                        continue
+                    gl = [f_any([d.guard for d in dl]) for _, dl in sorted(alts.items(), key=str)]
+                    # function-local `use` of the same name in different functions are different scopes: only
+                    # module-level items / modules / module-level uses are alternatives
+                    if gk == "use" and all(f_counterexample(a, b) is None and f_counterexample(b, a) is None
+                                           for a in gl for b in gl):
+                        continue
+                    alternatives.append({"crate": cr.name, "module": "::".join(("crate",) + mp), "name": name, "kind": gk,
+                                         "guards": gl})
+
+    # `std::` paths of the no_std-capable facade: each use guard must force `std`
+    std_uses = [p["use"] for p in pairs if p["what"].startswith("extern std")]
+    std_uses = list(dict.fromkeys(std_uses))
+
+    # `#[doc = include_str!(concat!("../doc/", $feature, ".md"))]` of create_derive!: the file must exist
+    doc_files = []
+    for f_ in sorted(set(d[1] for d in derives)):
+        doc_files.append((f_, os.path.exists(os.path.join(repo, "impl", "doc", f_ + ".md"))))
+
     # classify pairs
     uniq = {}
     for p in pairs:
@@ -1249,6 +1286,13 @@ def extract(repo=None):
             variables.append(e["feature"])
     for h in helpers:
         f_vars(h["uses"], f_vars(h["def"], variables))
+    for tgd in trait_guards:
+        f_vars(tgd["guard"], variables)
+    for al in alternatives:
+        for g_ in al["guards"]:
+            f_vars(g_, variables)
+    for g_ in std_uses:
+        f_vars(g_, variables)
     derive_feats = [f for f in fac_feats if f not in DERIVE_FEATURE_EXCLUDE]
     for f in derive_feats + ["std"]:
         if f not in variables:
@@ -1278,6 +1322,7 @@ def extract(repo=None):
     return {"variables": variables, "ok_pairs": ok_pairs, "exceptions": exceptions, "exports": exports,
             "helpers": helpers, "derives": derives, "facade_features": fac_feats, "impl_features": imp_feats,
             "dep_table": dep_table, "trait_exports": trait_exports, "surface": surface,
+            "trait_guards": trait_guards, "alternatives": alternatives, "std_uses": std_uses, "doc_files": doc_files,
             "impls": [{"trait": i["trait"], "type": i["type"], "guard": i["guard"]} for i in facade.impls], "notes": notes, "stats": stats, "derive_features": derive_feats,
             "facade_tests": [(v.get("name"), v.get("path"), v.get("required-features", []))
                              for k, v in fac_m.items() if k.startswith("test#")],
@@ -1340,6 +1385,27 @@ def render(x):
     L_.append("Definition helper_exports : list (string * formula * formula) :=")
     L_.append("  [ " + ";\n    ".join("(%s, %s, %s)" % (coq_string(h["item"]), coq_formula(h["def"], index),
                                                          coq_formula(h["uses"], index)) for h in x["helpers"]) + " ].")
+    L_.append("")
+
+    L_.append("(* re-exported traits (type namespace of derive_more::with_trait::T): (trait, export guard, feature variable) *)")
+    L_.append("Definition trait_exports : list (string * formula * N) :=")
+    L_.append("  [ " + ";\n    ".join("(%s, %s, %d)" % (coq_string(t["trait"]), coq_formula(t["guard"], index), index[t["feature"]])
+                                     for t in x["trait_guards"]) + " ].")
+    L_.append("")
+    L_.append("(* names defined more than once in one module (cfg alternatives): (label, guards of the alternatives) *)")
+    L_.append("Definition cfg_alternatives : list (string * list formula) :=")
+    L_.append("  [ " + ";\n    ".join("(%s, [%s])" % (coq_string("%s %s::%s (%s)" % (a["crate"], a["module"], a["name"], a["kind"])),
+                                                       "; ".join(coq_formula(g, index) for g in a["guards"]))
+                                     for a in x["alternatives"]) + " ].")
+    L_.append("")
+    L_.append("(* guards of the code of the facade that names `std::..` *)")
+    L_.append("Definition std_use_guards : list formula :=")
+    L_.append("  [ " + ";\n    ".join(coq_formula(g, index) for g in x["std_uses"]) + " ].")
+    L_.append("Definition std_var : N := %d." % index["std"])
+    L_.append("")
+    L_.append("(* impl/doc/<feature>.md, included by create_derive! under that feature: (feature, file exists) *)")
+    L_.append("Definition doc_files : list (string * bool) :=")
+    L_.append("  [ " + "; ".join("(%s, %s)" % (coq_string(f), "true" if e else "false") for f, e in x["doc_files"]) + " ].")
     L_.append("")
 
     def feats(name, d):
